@@ -545,7 +545,7 @@ def solve_one(
             statistics[STATS_IDX_SOLVER_SOLUTION_NB] += 1
             return get_solution(shr_domains_stack, stacks_top, dom_indices_arr, dom_offsets_arr)
         elif status == PROBLEM_UNBOUND:
-            if stacks_top[0] + 3 >= len(shr_domains_stack):
+            if int(stacks_top[0]) + 3 >= len(shr_domains_stack):  # the top of the stacks is an unsigned 8-bits integer
                 # a domain heuristic adds at most two choice points, the shaving algorithm needs one more
                 raise ValueError("The choice points stack is full, stack_max_height should be increased")
             dom_idx = var_heuristic_fct(var_heuristic_params, decision_domains, shr_domains_stack, stacks_top)
